@@ -2,3 +2,5 @@ import XV.Props.C10
 import XV.Props.C17
 import XV.Props.C19
 import XV.Props.C20
+import XV.Props.C18
+import XV.Props.C13
